@@ -18,7 +18,7 @@ package jet
 //@ axiom forallT(l, "*ListNode", l != nil && WFL(l) ==> forall(i, 0, len(l.Nodes), l.Nodes[i] != nil && WF(l.Nodes[i])))
 //@ axiom forallT(s, "*SetNode", s != nil && WFSet(s) ==> len(s.Left) >= 1 && len(s.Right) >= 1 && forall(i, 0, len(s.Left), s.Left[i] != nil && WF(s.Left[i])) && forall(i, 0, len(s.Right), s.Right[i] != nil && WF(s.Right[i])) && (s.IndexExprGetLookup ==> len(s.Left) == 2 && len(s.Right) == 1) && (s.Let ==> forall(i, 0, len(s.Left), NTF(s.Left[i]) == NodeIdentifier || NTF(s.Left[i]) == NodeUnderscore)) && forall(i, 0, len(s.Left), NTF(s.Left[i]) == NodeIdentifier || NTF(s.Left[i]) == NodeUnderscore || NTF(s.Left[i]) == NodeField || NTF(s.Left[i]) == NodeChain))
 //@ axiom forallT(p, "*PipeNode", p != nil && WFPipe(p) ==> len(p.Cmds) >= 1 && forall(i, 0, len(p.Cmds), p.Cmds[i] != nil && WFCmd(p.Cmds[i])))
-//@ axiom forallT(c, "*CommandNode", c != nil && WFCmd(c) ==> c.CallExprNode.BaseExpr != nil && WF(c.CallExprNode.BaseExpr) && (c.CallExprNode.CallArgs.Exprs == nil || len(c.CallExprNode.CallArgs.Exprs) >= 1) && forall(i, 0, len(c.CallExprNode.CallArgs.Exprs), c.CallExprNode.CallArgs.Exprs[i] != nil && WF(c.CallExprNode.CallArgs.Exprs[i])))
+//@ axiom forallT(c, "*CommandNode", c != nil && WFCmd(c) ==> c.CallExprNode.BaseExpr != nil && WF(c.CallExprNode.BaseExpr) && forall(i, 0, len(c.CallExprNode.CallArgs.Exprs), c.CallExprNode.CallArgs.Exprs[i] != nil && WF(c.CallExprNode.CallArgs.Exprs[i])))
 //@ axiom forallT(b, "*BlockParameterList", b != nil && WFParams(b) ==> forall(i, 0, len(b.List), b.List[i].Expression != nil ==> WF(b.List[i].Expression)))
 //@ axiom forallT(p, "*ListNode", p != nil && WF(iface(p, "*ListNode")) ==> WFL(p))
 //@ axiom forallT(p, "*ActionNode", p != nil && WF(iface(p, "*ActionNode")) ==> (p.Set != nil ==> WFSet(p.Set) && SetBalanced(p.Set)) && (p.Pipe != nil ==> WFPipe(p.Pipe)))
